@@ -331,6 +331,9 @@ package controller
 //@   ensures forall k :: old(Jlen) + len(toBeDeleted) <= k && k < Jlen ==> Jkind[k] == K_DELETE && Jname[k] == toBeDeleted[k - old(Jlen) - len(toBeDeleted)].Name
 //@   ensures [C19] Jlen > old(Jlen) + len(toBeDeleted) ==> (forall j :: old(Jlen) <= j && j < old(Jlen) + len(toBeDeleted) ==> Jok[j])
 
+// delOK(n, g, c): node n may be removed at clock reading c (C01 with C10's annotation rule)
+//@ spec delOK(n *v1.Node, g *NodeGroupState, c int) bool = !unsched(n) && ((k8s.hasEsc(n) && reapable(n, g, c)) || (k8s.hasForce(n) && forceReapable(n, g)))
+
 // TryRemoveTaintedNodes. C01/C10: whatever is handed to the cloud / deleted from Kubernetes is one of
 // the tainted nodes given, not annotated, with a readable taint time older than the soft grace period
 // and (empty or older than the hard grace period). C11: nothing in dry mode.
@@ -500,3 +503,7 @@ package controller
 //@   ensures Jlen >= old(Jlen) && jprefix(old(Jlen)) && clock >= old(clock) && groupInv(nodeGroup)
 //@   ensures [C11] dry(c, nodeGroup) ==> Jlen == old(Jlen)
 //@   ensures [C02] lockedAt(nodeGroup, clock) && old(nodeGroup.scaleUpLock.lockTime) == nodeGroup.scaleUpLock.lockTime ==> Jlen == old(Jlen)
+//@   ensures [C04] forall k :: old(Jlen) <= k && k < Jlen && Jkind[k] == C_INCREASE ==> Jname[k] == gid(nodeGroup) && Jnum[k] >= 1 && tgt(gid(nodeGroup)) + Jnum[k] <= min(nodeGroup.Opts.MaxNodes, cmax(gid(nodeGroup)))
+//@   ensures [C09] !dry(c, nodeGroup) ==> (forall k :: old(Jlen) <= k && k < Jlen && (Jkind[k] == K_UPDATE || Jkind[k] == K_DELETE || Jkind[k] == C_DELNODE) ==> (exists i :: 0 <= i && i < len(k8s.listedNodes()) && k8s.listedNodes()[i].Name == Jname[k] && !unsched(k8s.listedNodes()[i])))
+//@   ensures [C01,C10] forall k :: old(Jlen) <= k && k < Jlen && (Jkind[k] == K_DELETE || Jkind[k] == C_DELNODE) ==> (exists i :: 0 <= i && i < len(k8s.listedNodes()) && k8s.listedNodes()[i].Name == Jname[k] && delOK(k8s.listedNodes()[i], nodeGroup, clock))
+//@   ensures [C01] Jlen > old(Jlen) ==> (forall i, j :: 0 <= i && i < len(k8s.listedNodes()) && 0 <= j && j < len(k8s.listedPods()) && k8s.nodeEmptyIn(k8s.listedNodes()[i], nodeGroup.NodeInfoMap) && k8s.listedPods()[j].Spec.NodeName == k8s.listedNodes()[i].Name ==> k8s.isDS(k8s.listedPods()[j]))
